@@ -1329,6 +1329,8 @@ pub(crate) mod copy_slice_impl {
     // - `src_addr` must point to a properly initialized value, which is true here because
     //   we're only using integer primitives.
     unsafe fn copy_single(align: usize, src_addr: *const u8, dst_addr: *mut u8) {
+        #[cfg(vm_memory_verif)]
+        crate::verif::access::single(align, src_addr as usize, dst_addr as usize);
         match align {
             8 => write_volatile(dst_addr as *mut u64, read_volatile(src_addr as *const u64)),
             4 => write_volatile(dst_addr as *mut u32, read_volatile(src_addr as *const u32)),
@@ -1406,6 +1408,8 @@ pub(crate) mod copy_slice_impl {
             //   invariant
             // - src and dst are properly aligned, as any alignment is valid for u8
             // - The regions are not overlapping by function invariant
+            #[cfg(vm_memory_verif)]
+            crate::verif::access::bulk(total, src as usize, dst as usize);
             unsafe {
                 std::ptr::copy_nonoverlapping(src, dst, total);
             }
